@@ -25,3 +25,6 @@ Qed.
 (* a lazy read wraps exactly one delayed eager read of the same (offset, n) and then only rechunks it (pinned syntax of _read_data) *)
 Theorem lazy_read_generated : gen_lazy_read_is_one_delayed_read = true.
 Proof. reflexivity. Qed.
+(* a per-thread sideband mask is coerced to booleans before it selects the threads to conjugate (pinned syntax of the setter) *)
+Theorem sideband_mask_generated : gen_sideband_mask_is_boolean = true.
+Proof. reflexivity. Qed.
